@@ -1,6 +1,7 @@
 (** Correspondence + property judges for the log-query engine (C01, C06, C07, C08, C19). *)
 From LogQLV Require Export Base.Bytes Base.FloatX Base.LMap Base.Regex Base.Units Model.Tables Model.KeyToLabel Model.Stages Model.Engine.
 From LogQLV Require Import Run.C20.
+From LogQLV Require Export Model.JsonPath Model.PatternParse.
 From LogQLV Require Export Spec.LogSpec.
 
 (** one evaluation of the case: a query under a capability set and a limit, with what the implementation returned *)
@@ -213,6 +214,10 @@ Definition judge (c : case) : bool * bool * Z :=
    if existsb (Z.eqb 2) cs then 1000 else 0).
 
 (** helpers for generated terms *)
+(** a path expression / a pattern is given to the model AS TEXT and goes through the model of its parser (jsonexpr.Parse,
+    logqlpattern.Parse) before the model of the stage uses it: parsing and evaluation are tied in one run *)
+Definition jp (text : bytes) : list jsel := match parse_path text with PathOk p => p | _ => [] end.
+Definition pat (text : bytes) : list ppart := match parse_pattern text with Some ps => ps | None => [] end.
 Definition rx (b : bool) (r : re) (e : bool) : regex := {| bol := b; body := r; eol := e |}.
 Definition no_rx : regex := rx false REmpty false.
 Definition sm (o : binop) (v : bytes) (r : regex) : strm := {| sm_op := o; sm_value := v; sm_re := r |}.
